@@ -400,6 +400,27 @@ impl<T: HCfg> World<T> {
                     line.insert("r".into(), json!("skip"));
                 } else {
                     self.peer_step(&act, p, s, &mut line);
+                    if act == "ev" {
+                        // DesyncDetected: attach the checksums both games really saved for that frame
+                        if let Some(Value::Array(evs)) = line.get_mut("ev") {
+                            for e in evs.iter_mut() {
+                                if e[0] == "Desy" {
+                                    let q = e[1].as_u64().unwrap_or(0) as usize;
+                                    let f = e[2].as_i64().unwrap_or(0) as i32;
+                                    let mine = self.peers[p].game.saved.get(&f).map(|v| *v as i64).unwrap_or(-1);
+                                    let theirs = if q < self.peers.len() {
+                                        self.peers[q].game.saved.get(&f).map(|v| *v as i64).unwrap_or(-1)
+                                    } else {
+                                        -1
+                                    };
+                                    if let Some(a) = e.as_array_mut() {
+                                        a.push(json!(mine));
+                                        a.push(json!(theirs));
+                                    }
+                                }
+                            }
+                        }
+                    }
                     self.take_logs(&mut line);
                     if !self.peers[p].crashed {
                         self.observe(p, &mut line);
@@ -434,7 +455,23 @@ impl<T: HCfg> World<T> {
                             .collect()
                     })
                     .unwrap_or_default();
-                line.insert("in".into(), s["in"].clone());
+                // frame-indexed inputs (cfg.inputs_by_frame = alphabet size): the value a player
+                // submits depends only on (handle, frame), so runs with different timing are comparable
+                let by_frame = self.cfg.get("inputs_by_frame").and_then(|v| v.as_u64()).unwrap_or(0);
+                let ins: Vec<(usize, u8)> = if by_frame > 0 {
+                    ins.iter()
+                        .map(|(h, _)| {
+                            let x = (cur0 as u64).wrapping_mul(2654435761) >> 9;
+                            (*h, ((x + (*h as u64) * 3 + (cur0 as u64) / 5) % by_frame) as u8)
+                        })
+                        .collect()
+                } else {
+                    ins
+                };
+                line.insert(
+                    "in".into(),
+                    json!(ins.iter().map(|(h, v)| json!([h, v])).collect::<Vec<_>>()),
+                );
                 let mut adds = Vec::new();
                 for (h, v) in &ins {
                     let r = catch_unwind(AssertUnwindSafe(|| sess.add_local_input(*h, *v)));
@@ -520,6 +557,7 @@ impl<T: HCfg> World<T> {
                 };
                 line.insert("ev".into(), Value::Array(evs));
                 line.insert("r".into(), json!("ok"));
+                return;
             }
             (Sess::P2P(sess), "disc") => {
                 let h = s["h"].as_u64().unwrap_or(0) as usize;
